@@ -25,7 +25,7 @@
 (*      certificate; decryption opens the first EncryptedData only with the  *)
 (*      matching private key; no output on failure.                         *)
 (***************************************************************************)
-EXTENDS Naturals, Sequences, FiniteSets, TLC
+EXTENDS Naturals, Sequences, FiniteSets, TLC, XmlSecFaults
 
 CONSTANT Level       \* "assertion", "response" or "both": what the issuer signed
 
@@ -38,14 +38,6 @@ VARIABLES kind,      \* Node -> element kinds \cup {"Sig", "free"}
           kids,      \* Node -> Seq(Node)
           root,
           sorig      \* Node -> {"A", "R", "-"}      which genuine signature a Sig node is a copy of
-
-\* the ways a tool run can fail to report success (actions of the fault-injecting stand-in)
-VerifyFaults == {"ExitError", "KilledBySignal", "EmptyOutput", "TruncatedOutput", "Garbled",
-                 "OkInsideText1", "OkInsideText2", "OkInsideText3", "OkInsideText4", "OkInsideText5",
-                 "OkInsideText6"}
-OutputFaults == {"ExitError", "KilledBySignal", "NoOutputFile", "EmptyOutput", "Garbled"}
-\* a run reports success iff it was not faulted and the check itself succeeded
-Reports(ok, fault) == ok /\ fault = "none"
 
 (***************************************************************************)
 (* The genuine signatures                                                  *)
